@@ -28,22 +28,35 @@ def next (s : Nat) : Nat × Nat :=
   let s' := step s
   (output s', s')
 
-/-- first `k` words from state `s` -/
-def words : Nat → Nat → List Nat
+/-- state after `k` applications of a step function (generic, so that theorems never unfold the
+    128-bit constants) -/
+def advanceWith (f : Nat → Nat) : Nat → Nat → Nat
+  | 0, s => s
+  | k+1, s => advanceWith f k (f s)
+
+/-- first `k` outputs of a generator with step `f` and output function `o` -/
+def wordsWith (f : Nat → Nat) (o : Nat → Nat) : Nat → Nat → List Nat
   | 0, _ => []
-  | k+1, s => let (w, s') := next s; w :: words k s'
+  | k+1, s => o (f s) :: wordsWith f o k (f s)
+
+/-- first `k` words from state `s` -/
+def words : Nat → Nat → List Nat := wordsWith step output
 
 /-- state after `k` draws -/
-def advance : Nat → Nat → Nat
-  | 0, s => s
-  | k+1, s => advance k (step s)
+def advance : Nat → Nat → Nat := advanceWith step
+
+/-- big-endian base-256 digits, `n` of them -/
+def bytesBE : Nat → Nat → List Nat
+  | 0, _ => []
+  | n+1, s => bytesBE n (s / 256) ++ [s % 256]
 
 /-- MarshalBinary: 16 bytes big-endian high‖low -/
-def marshal (s : Nat) : List Nat :=
-  (List.range 16).map fun i => (s >>> (8 * (15 - i))) % 256
+def marshal (s : Nat) : List Nat := bytesBE 16 s
+
+def fromBytesBE (bs : List Nat) : Nat := bs.foldl (fun acc b => acc * 256 + b % 256) 0
 
 def unmarshal (bs : List Nat) : Option Nat :=
   if bs.length < 16 then none
-  else some ((bs.take 16).foldl (fun acc b => acc * 256 + b % 256) 0)
+  else some (fromBytesBE (bs.take 16))
 
 end DS.Rng
